@@ -29,8 +29,42 @@ VERIF = os.path.dirname(os.path.dirname(os.path.abspath(__file__)))
 REPO = "/repo"
 
 
+BASE_COMMIT = "48acaa7"  # the pinned tree the anchors' line numbers refer to (before the fix: commits)
+
+
+def _line_map(f):
+    """old line number -> new line number (difflib over the pinned version and HEAD of file f)."""
+    import difflib
+    try:
+        old = subprocess.run(["git", "-C", REPO, "show", f"{BASE_COMMIT}:{f}"], capture_output=True, text=True, check=True).stdout.splitlines()
+    except Exception:  # noqa: BLE001
+        return None
+    new = open(os.path.join(REPO, f)).read().splitlines()
+    mp = {}
+    for tag, i1, i2, j1, j2 in difflib.SequenceMatcher(None, old, new, autojunk=False).get_opcodes():
+        if tag == "equal":
+            for k in range(i2 - i1):
+                mp[i1 + k + 1] = j1 + k + 1
+        else:
+            for k in range(i2 - i1):
+                mp[i1 + k + 1] = min(j1 + k, j2 - 1 if j2 > j1 else j1) + 1
+    return mp
+
+
 def anchors():
-    """{(file): [(lo, hi, prop)]}"""
+    """{(file): [(lo, hi, prop)]} in HEAD line numbers"""
+    raw = _anchors_raw()
+    out = {}
+    for f, rngs in raw.items():
+        mp = _line_map(f)
+        for lo, hi, p in rngs:
+            if mp:
+                lo, hi = mp.get(lo, lo), mp.get(hi, hi)
+            out.setdefault(f, []).append((lo, hi, p))
+    return out
+
+
+def _anchors_raw():
     out = {}
     for l in open(os.path.join(VERIF, "properties.jsonl")):
         p = json.loads(l)
